@@ -31,4 +31,7 @@ CASES = [
          old="        m = SingleAssignmentDisposable()\n        group.add(m)\n",
          new="        m = SingleAssignmentDisposable()\n"), dict(file=MERGE,
          old="        return group\n\n    return Observable(subscribe)\n\n\n__all__", new="        group.add(m)\n        return group\n\n    return Observable(subscribe)\n\n\n__all__")]),
+    dict(expect="fire", desc="seed C02-r3/2: add_ref takes its reference when the window is created", names="G1-addref", edits=[dict(file="reactivex/internal/utils.py",
+         old="    def subscribe(\n        observer: abc.ObserverBase[Any], scheduler: abc.SchedulerBase | None = None\n    ) -> abc.DisposableBase:\n        return CompositeDisposable(r.disposable, xs.subscribe(observer))",
+         new="    ref = r.disposable\n\n    def subscribe(\n        observer: abc.ObserverBase[Any], scheduler: abc.SchedulerBase | None = None\n    ) -> abc.DisposableBase:\n        return CompositeDisposable(ref, xs.subscribe(observer))")]),
 ]
